@@ -131,26 +131,9 @@ def zygote_init(repo: str) -> None:
             self.sim_structure_calls = 0
             self.sim_tag = None
 
-    import typing as _t
+    from . import usertypes
 
-    @attrs.define
-    class UserThing:
-        """A class of the USER (not of lsprotocol) whose field types are the generic types for which
-        get_converter registers hooks on the user's converter."""
-
-        ident: _t.Union[int, str]
-        flag: _t.Optional[_t.Union[str, bool]] = None
-        anything: _t.Optional[_t.Union[bool, _t.Any]] = None
-        maybe_id: _t.Optional[_t.Union[int, str]] = None
-        nothing: type(None) = None  # type: ignore[valid-type]
-        label: _t.Union[str, _t.Tuple[int, int]] = "x"
-
-    @attrs.define
-    class UserBox:
-        things: _t.List[UserThing] = attrs.field(factory=list)
-        position: _t.Optional[lsp.Position] = None
-
-    Z["user_types"] = {"UserThing": UserThing, "UserBox": UserBox}
+    Z["user_types"] = usertypes.make(lsp)
     Z.update(
         repo=repo,
         conv=conv,
@@ -323,6 +306,7 @@ def customise(conv: Any, variant: str = "position") -> None:
             return o
 
         conv.register_structure_hook(bool, strict_bool)
+        conv.register_structure_hook(int, lambda o, _t: int(o) + 1000)
         conv.register_unstructure_hook(float, lambda v: round(v, 1) + 1000.0)
         conv.register_unstructure_hook(str, lambda v: v if len(v) < 3 else v[:-1] + v[-1].upper())
     else:
@@ -397,7 +381,7 @@ def needed_keys(run: Dict[str, Any]) -> List[str]:
             customs.add(f"pre:{v if isinstance(v, str) else 'position'}")
     for ops in run["threads"]:
         for op in ops:
-            if op[0] == "GET" and op[2] == "user":
+            if op[0] in ("GET", "GETX") and op[2] == "user":
                 cfgs.add(cfg_of(op[3]))
             elif op[0] == "GET" and op[2] == "copy":
                 cfgs.add((bool(op[3][1]), bool(op[3][2]), "-"))
@@ -443,10 +427,10 @@ def gen_run(run_seed: int, tier: str) -> Dict[str, Any]:
     nS, nB = len(battery.STRUCT), len(battery.BUILD)
 
     shape = r_ops.choices(
-        ["concurrent_first", "late_joiner", "single_history", "burst", "shared_user", "big_payload", "churn", "long_life", "same_hook", "handoff"],
-        weights=[30, 11, 15, 5, 16, 5, 5, 2, 6, 5],
+        ["concurrent_first", "late_joiner", "single_history", "burst", "shared_user", "big_payload", "churn", "long_life", "same_hook", "handoff", "global_custom"],
+        weights=[30, 11, 15, 5, 16, 5, 5, 2, 6, 5, 4],
     )[0]
-    if shape in ("single_history", "burst", "churn", "long_life"):
+    if shape in ("single_history", "burst", "churn", "long_life", "global_custom"):
         n = 1
     elif shape == "big_payload":
         n = r_ops.choice([2, 2, 3])
@@ -477,6 +461,7 @@ def gen_run(run_seed: int, tier: str) -> Dict[str, Any]:
     small_invalid = [i for i, b in enumerate(battery.STRUCT[:base_n]) if b[0] in ("position-neg", "position-big", "position-missing", "diagnostic-bad-sev", "null-required", "wrong-shape-list")]
 
     hm0 = hm_start()
+    user_items = [i for i, b in enumerate(battery.STRUCT[:base_n]) if b[0].startswith("user-")]
 
     def pick_k() -> int:
         x = r_ops.random()
@@ -484,6 +469,8 @@ def gen_run(run_seed: int, tier: str) -> Dict[str, Any]:
             return r_ops.choice(battery.BIG)
         if x < 0.12 and small_invalid:
             return r_ops.choice(small_invalid)
+        if x < 0.16 and user_items:
+            return r_ops.choice(user_items)
         if x < 0.40 and hm0 < nS:
             return r_ops.randrange(hm0, nS)  # hook matrix: one hand-written hook, one input shape
         k = r_ops.randrange(hm0 - len(battery.BIG))
@@ -504,8 +491,14 @@ def gen_run(run_seed: int, tier: str) -> Dict[str, Any]:
                 ops.append(["BUILD", slot, r_ops.randrange(nB)])
         return ops
 
+    global_used = [False]
+
     def get_op(slot: int, allow_shared: bool = True) -> List[Any]:
         x = r_ops.random()
+        if n == 1 and shape == "single_history" and not global_used[0] and r_ops.random() < 0.12:
+            # the user hands over the process-wide cattrs.global_converter (what cattrs.structure() uses)
+            global_used[0] = True
+            return ["GET", slot, "global", None]
         if n_shared and allow_shared and x < (0.6 if shape == "shared_user" else 0.25):
             return ["GET", slot, "shared", r_ops.randrange(n_shared)]
         if x < 0.55:
@@ -545,6 +538,18 @@ def gen_run(run_seed: int, tier: str) -> Dict[str, Any]:
                 ops.append(["USE", 0, same_k[0]])
             ops += use_ops(0, 1)
             nslots = 1
+        elif shape == "global_custom":
+            # the user hands the process-wide cattrs.global_converter (or their own converter) over and
+            # customises it; an EARLIER and a LATER converter are then judged on the WHOLE battery
+            ops.append(get_op(0, allow_shared=False) if r_ops.random() < 0.5 else ["GET", 0, "fresh", None])
+            ops += use_ops(0, 2)
+            ops.append(["GET", 1, "global", None] if r_ops.random() < 0.7 else ["GET", 1, "user", rand_cfg()])
+            ops.append(["CUSTOM", 1, r_ops.choice(["primitives", "primitives", "position"] + CUSTOM_VARIANTS)])
+            ops += use_ops(1, 2)
+            ops.append(["FULLUSE", 0])
+            ops.append(["GET", 2, "fresh", None] if r_ops.random() < 0.6 else ["GET", 2, "user", rand_cfg()])
+            ops.append(["FULLUSE", 2])
+            nslots = 3
         elif shape == "long_life":
             # one converter serves a long session (1 500-2 500 calls) while two others come and go:
             # size-limited caches, counters and "after N uses" paths
@@ -652,7 +657,20 @@ def gen_run(run_seed: int, tier: str) -> Dict[str, Any]:
                 else:
                     ops.append(["YIELD"])
             ops += use_ops(r_ops.randrange(nslots), 2)
+            if n == 1 and r_ops.random() < 0.08:
+                cand = [q for q in range(nslots) if q not in customised]
+                if cand:
+                    ops.append(["FULLUSE", r_ops.choice(cand)])
         threads.append(ops)
+
+    if n > 1 and shape in ("concurrent_first", "late_joiner", "same_hook", "big_payload") and r_ops.random() < 0.22:
+        # a creation that is INTERRUPTED (MemoryError / RecursionError / KeyboardInterrupt delivered at an
+        # arbitrary line inside get_converter): that call may fail, every later creation must be fine
+        for t in r_ops.sample(range(n), r_ops.choice([1, 1, 2]) if n > 2 else 1):
+            g = threads[t][0]
+            if g[0] == "GET" and g[2] in ("fresh", "user") and len(g) <= 4:
+                k_ = r_ops.choice([r_ops.randint(1, 400), r_ops.randint(1, 6000), r_ops.randint(3000, 7000)])
+                threads[t].insert(0, ["GETX", g[1], g[2], g[3], k_, r_ops.choice(["MemoryError", "RecursionError", "KeyboardInterrupt"])])
 
     start_after = [0] * n
     if shape == "handoff":
@@ -712,6 +730,11 @@ def execute(run: Dict[str, Any], golden: Dict[str, Any]) -> Dict[str, Any]:
         "custom_then_other_used": 0,
         "reget": 0,
         "copy_of_earlier_converter": 0,
+        "global_converter_handed_over": 0,
+        "whole_battery_on_one_converter": 0,
+        "interrupt_delivered": 0,
+        "interrupt_swallowed": 0,
+        "interrupt_not_reached": 0,
         "forbid_extra_keys_config": 0,
         "extra_battery_used": 0,
         "dropped_and_collected": 0,
@@ -861,7 +884,7 @@ def execute(run: Dict[str, Any], golden: Dict[str, Any]) -> Dict[str, Any]:
                 # the simulated clock jumps between operations: milliseconds, a minute, an hour, a day
                 sim_now[0] += r_clock.choice([0.001, 0.5, 61.0, 3601.0, 86401.0])
                 probes["clock_jumps"] += 1
-            if kind in ("USE", "BUILD", "CUSTOM", "REGET", "DROP") and op[1] not in slots:
+            if kind in ("USE", "BUILD", "CUSTOM", "REGET", "DROP", "FULLUSE") and op[1] not in slots:
                 continue  # slot never created (minimised script): no-op
             sched.yield_point(("op", oi, kind))
             outcome: Any = None
@@ -885,6 +908,15 @@ def execute(run: Dict[str, Any], golden: Dict[str, Any]) -> Dict[str, Any]:
                             probes["forbid_extra_keys_config"] += 1
                         c = conv_mod.get_converter(base)
                         cfgs.setdefault(id(c), cfg_of(arg))
+                        if c is not base:
+                            mode.setdefault(id(c), None)
+                        mode.setdefault(id(base), None)
+                    elif how == "global":
+                        base = Z["cattrs"].global_converter
+                        cfgs.setdefault(id(base), (True, False, "-"))
+                        probes["global_converter_handed_over"] += 1
+                        c = conv_mod.get_converter(base)
+                        cfgs.setdefault(id(c), (True, False, "-"))
                         if c is not base:
                             mode.setdefault(id(c), None)
                         mode.setdefault(id(base), None)
@@ -920,6 +952,35 @@ def execute(run: Dict[str, Any], golden: Dict[str, Any]) -> Dict[str, Any]:
                     slots[s] = c
                     get_finished[0] += 1
                     outcome = ("got",)
+                elif kind == "GETX":
+                    s, how, arg, k_, exn = op[1], op[2], op[3], op[4], op[5]
+                    base = make_user(arg) if how == "user" else None
+                    exc_cls = {"MemoryError": MemoryError, "RecursionError": RecursionError, "KeyboardInterrupt": KeyboardInterrupt}[exn]
+                    armed = sched.arm(idx, k_, exc_cls)
+                    try:
+                        c = conv_mod.get_converter(base) if base is not None else conv_mod.get_converter()
+                    except (MemoryError, RecursionError, KeyboardInterrupt) as e_:
+                        if not sched.disarm(idx):
+                            raise  # not ours: an observation like any other
+                        probes["interrupt_delivered"] += 1
+                        del e_
+                        outcome = ("interrupted", exn)
+                    else:
+                        if armed and sched.disarm(idx):
+                            probes["interrupt_swallowed"] += 1  # delivered, yet the call returned: judged like any converter
+                        else:
+                            probes["interrupt_not_reached"] += 1
+                        cf_ = cfg_of(arg) if how == "user" else (True, False, "-")
+                        if base is not None:
+                            cfgs[id(base)] = cf_
+                            mode.setdefault(id(base), None)
+                        cfgs.setdefault(id(c), cf_)
+                        mode.setdefault(id(c), None)
+                        keep_alive.append(c)
+                        registry.append(c)
+                        slots[s] = c
+                        get_finished[0] += 1
+                        outcome = ("got",)
                 elif kind == "REGET":
                     c = slots[op[1]]
                     c2 = conv_mod.get_converter(c)
@@ -994,6 +1055,22 @@ def execute(run: Dict[str, Any], golden: Dict[str, Any]) -> Dict[str, Any]:
                                 "msg": f"thread {idx} op {oi} BUILD({nm}) on a [{kind_of(c)}] converter gave {outcome}, a lone converter of that kind gives {tuple(exp)}",
                             }
                         )
+                elif kind == "FULLUSE":
+                    c = slots[op[1]]
+                    bad = 0
+                    skip_big = set(battery.BIG)
+                    g_use = gold(c)["use"]
+                    for k_ in range(len(battery.STRUCT)):
+                        if k_ in skip_big:
+                            continue
+                        out_ = do_use(c, k_)
+                        if tuple(g_use[k_]) != tuple(out_):
+                            bad += 1
+                            if bad == 1:
+                                viol.append({"sig": f"use-differs:{g_use[k_][0]}->{out_[0]}",
+                                             "msg": f"thread {idx} op {oi} whole battery on a [{kind_of(c)}] converter: {battery.STRUCT[k_][0]} gave {out_} but a lone converter of that kind gives {tuple(g_use[k_])}"})
+                    probes["whole_battery_on_one_converter"] += 1
+                    outcome = ("full", bad)
                 elif kind == "PUBLISH":
                     c = slots.get(op[1])
                     if c is not None and mode.get(id(c)) is None:
@@ -1014,7 +1091,7 @@ def execute(run: Dict[str, Any], golden: Dict[str, Any]) -> Dict[str, Any]:
                 elif kind == "YIELD":
                     outcome = ("yield",)
             except Exception as e:  # an op of the system under test raised: that is an observation
-                if kind in ("GET", "REGET", "BURST"):
+                if kind in ("GET", "GETX", "REGET", "BURST"):
                     tb = traceback.extract_tb(e.__traceback__)
                     where = ""
                     for fr in reversed(tb):
